@@ -77,6 +77,86 @@ def visit(acc, text, prefix):
     return impl_dead(out), ref_dead(ref)
 
 
+LEXEME_CATALOGUE = [
+    # numbers
+    '0', '0.', '.0', '0.0', '1e+1', '1E-1', '1.e1', '.5e0', '0x0', '0XaF',
+    '123456789012345678901234567890', '1e1000', '00', '08', '0x', '1e',
+    '1.2.3', '1a', '0xg', '.e1',
+    # strings
+    "'\\''", "'\\0'", "'\\x41'", "'\\u0041'", "'\\a'", "'\\ '", "'\\\n'",
+    '"\\\'"', "'\\8'", "'\\01'", "'\\x4'", "'\\u004'", "'a\u2028b'",
+    "'a\tb'", "'\\\r\n'", "'\\\u2028'", '"\\""', "''", '""',
+    # regular expressions
+    '/[/]/', '/\\//', '/a/gim', '/[\\]]/', '/(?:)/', '/=/', '/a/g1',
+    '/[/', '/a\\/', '/\\\n/', '/a/ /b/',
+    # words
+    'true', 'false', 'null', 'this', 'undefined', 'NaN',
+]
+IDENTIFIER_CATALOGUE = [
+    'a', '$', '_', '$1', 'a1', 'a1\xe9', '\xe9a', 'a\u0301', '\u03c0',
+    'a\u200d', 'a\u200cb', '\\u0061bc', 'a\\u0062', 'let', 'yield', 'static',
+    'implements', 'interface', 'package', 'private', 'protected', 'public',
+    'class', 'enum', 'super', 'of', 'async', 'await', 'get', 'set', 'eval',
+    'arguments', 'If', 'IF', '\u0131f', 'el\u017fe', 'a\ufeffb', '\u2118',
+    'a\xb7b',
+]
+
+
+def production_coverage(texts):
+    """
+    Coverage accounting (evidence only, never a verdict): which grammar
+    actions, distinguished by the length of the production they reduced, ran
+    at least once over the accepted programs.  Observed with sys.setprofile
+    (the p_* methods must not be wrapped: ply orders rules - and thereby
+    resolves reduce/reduce conflicts - by their line numbers).
+    """
+    import sys
+    from calmjs.parse.parsers import es5
+
+    def work(chunk, idx):
+        seen = set()
+
+        def prof(frame, event, arg):
+            if event == 'call':
+                name = frame.f_code.co_name
+                if name.startswith('p_') and name != 'p_error':
+                    p = frame.f_locals.get('p')
+                    try:
+                        seen.add((name, len(p)))
+                    except Exception:
+                        seen.add((name, -1))
+        for t in chunk:
+            sys.setprofile(prof)
+            try:
+                es5.parse(t)
+            except Exception:
+                pass
+            finally:
+                sys.setprofile(None)
+        return seen
+    seen = set()
+    for s_ in pmap(work, texts):
+        seen |= s_
+    # the alternatives each action can reduce, from the docstrings
+    expected = set()
+    for name in dir(es5.Parser):
+        if not name.startswith('p_') or name == 'p_error':
+            continue
+        doc = getattr(es5.Parser, name).__doc__ or ''
+        body = doc.replace('\\\n', ' ')
+        if ':' not in body:
+            continue
+        head, alts = body.split(':', 1)
+        for alt in alts.split('|'):
+            n = len(alt.split())
+            expected.add((name, n + 1))
+    missing = sorted(expected - seen)
+    return {'actions_x_production_length_expected': len(expected),
+            'exercised': len(expected & seen),
+            'never_exercised': ['%s/%d' % m_ for m_ in missing][:80],
+            'texts': len(texts)}
+
+
 def run(tier, rep):
     if tier == 'quick':
         plans = [('A', AB.A, 3), ('A_EXPR', AB.A_EXPR, 4),
@@ -104,6 +184,26 @@ def run(tier, rep):
         m.add(acc)
     rep.add(states=len(corpus), transitions=len(corpus))
     rep.space('S0', texts=len(corpus))
+
+    # a catalogue of single lexemes whose spelling exercises the lexical
+    # grammar (7.6 identifiers, 7.8.3 numbers, 7.8.4 strings, 7.8.5 regular
+    # expressions), each in a few syntactic contexts
+    cat = []
+    for lx in LEXEME_CATALOGUE:
+        for ctx in ('%s ;', 'x = %s ;', '%s . p ;', 'x . p ( %s ) ;',
+                    '%s + %s ;', 'x = { p : %s } ;'):
+            cat.append(ctx.replace('%s', lx))
+    for lx in IDENTIFIER_CATALOGUE:
+        for ctx in ('%s ;', 'var %s = 1 ;', 'x . %s ;', 'function %s ( ) { }',
+                    'x = { %s : 1 } ;', '%s : x ;', '%s ( %s ) ;',
+                    'x = { get %s ( ) { } } ;'):
+            cat.append(ctx.replace('%s', lx))
+    cat = sorted(set(cat))
+    for acc in pmap(work, cat):
+        m.add(acc)
+    rep.add(states=len(cat), transitions=len(cat))
+    rep.space('lexeme-catalogue', lexemes=len(LEXEME_CATALOGUE),
+              identifiers=len(IDENTIFIER_CATALOGUE), texts=len(cat))
 
     # S2 / S3: derivations and their single-lexeme mutants
     try:
@@ -147,6 +247,9 @@ def run(tier, rep):
         rep.add(states=len(muts), transitions=len(muts))
         rep.space('S3', mutants=len(muts), base_programs=len(base))
 
+    if tier != 'quick' and G is not None:
+        rep.cov['grammar_coverage'] = production_coverage(
+            [G.render(l) for l in G.programs(2)] + list(corpus))
     t = m.total
     rep.bag.merge(t.bag)
     rep.cov['traces_validated_against_impl'] = t.traces
